@@ -12,7 +12,7 @@ Proof. exact explore_correct. Qed.
 Print Assumptions C14_explorer_sound_complete.
 
 (* A terminal state with an unfinished actor is exactly a reference deadlock (every unfinished actor is blocked on a
-   synchronisation object), unless the run crashed on an assertion. *)
+   synchronisation object and has no timer armed), unless the run crashed on an assertion. *)
 Theorem C14_deadlock_iff_terminal_unfinished : forall P s, st_crash s = false ->
   ((terminal P s /\ exists a, unfinished P s a) <-> Ref_deadlock P s).
 Proof. exact deadlock_iff. Qed.
@@ -43,6 +43,15 @@ Theorem C14_deadlock_free_never_reports : forall P sched s,
 Proof. exact no_deadlock_never_reported. Qed.
 Print Assumptions C14_deadlock_free_never_reports.
 
+(* A timed acquisition that times out leaves the waiting queue of its semaphore alone: exactly that waiter is removed,
+   the waiters before and after it keep their relative order, the value is unchanged, the actor is answered. *)
+Theorem C14_timeout_keeps_order : forall a i d s q1 q2, (i < length (st_s s))%nat ->
+  s_q (nth i (st_s s) dS) = q1 ++ a :: q2 -> ~ In a q1 -> ~ In a q2 ->
+  let '(s', ws) := fire a (AcquireT i d) s in
+  nth i (st_s s') dS = mkS (s_val (nth i (st_s s) dS)) (q1 ++ q2) /\ ws = [a].
+Proof. exact fire_acquire_keeps_order. Qed.
+Print Assumptions C14_timeout_keeps_order.
+
 (* non-vacuity: the AB/BA program has two reachable terminal states, one of which is a deadlock, and the engine
    model runs into it *)
 Definition abba := mkP 2 [] 0 [] 0 [[Lock 0; Lock 1; Unlock 1; Unlock 0]; [Lock 1; Lock 0; Unlock 0; Unlock 1]].
@@ -51,3 +60,16 @@ Example C14_nonvacuous :
              /\ existsb (fun s => negb (deadlock_b abba s)) T = true) /\
   (exists s tr, engine_run 100 abba = Some (s, tr) /\ tr = [0; 1; 0; 1]%nat /\ deadlock_b abba s = true).
 Proof. split; [eexists | eexists; eexists]; vm_compute; repeat split; reflexivity. Qed.
+
+(* non-vacuity of the timed part: S = Sem(0); A: acquire_timeout(10 s), release; B: sleep 1 s, acquire, release;
+   C: sleep 2 s, acquire.  The dates force the queue [A; B; C]; A times out, B then C are served: the timed reference has
+   exactly one terminal state, every actor finished, A answered 1 (timed out), no deadlock.  The same program with an
+   untimed operation added (a fourth actor doing Put on a mailbox nobody reads) is read without dates: the timeout and the
+   queueing order are free, several terminal states. *)
+Definition tdemo := mkP 0 [0] 0 [] 0 [[AcquireT 0 80; Release 0]; [Sleep 8; Acquire 0; Release 0]; [Sleep 16; Acquire 0]].
+Definition udemo := mkP 0 [0] 0 [] 1 [[AcquireT 0 80; Release 0]; [Sleep 8; Acquire 0; Release 0]; [Sleep 16; Acquire 0]; [Put 0 1]].
+Example C14_timed_nonvacuous :
+  (exists s, explore 1000 tdemo = Some [s] /\ deadlock_b tdemo s = false /\ st_now s = 80 /\
+             map a_pc (st_a s) = [2; 3; 2]%nat /\ map a_log (st_a s) = [[0; 1]; [0; 0; 0]; [0; 0]]) /\
+  (exists T, explore 4000 udemo = Some T /\ (1 < length T)%nat /\ existsb (deadlock_b udemo) T = true).
+Proof. split; [eexists | eexists]; vm_compute; repeat split; reflexivity. Qed.
